@@ -25,6 +25,10 @@ type c14BlockCase struct {
 	History []gen.Data `json:"history"`
 	HistDst []int      `json:"histdst,omitempty"` // destination length of each history call (0 = bound): short ones fail part-way
 	Hammer  bool       `json:"hammer"`
+	// HistRel[i] != "": history source i is derived from the *target* source (c01Step.relSrc: drop | prepend | head | tail | append | same, with
+	// HistRelN[i]) - the used compressor has seen the target's byte groups before, at other positions
+	HistRel  []string `json:"histrel,omitempty"`
+	HistRelN []int    `json:"histreln,omitempty"`
 }
 
 func runC14Block(c c14BlockCase, rec *stat.Rec) *stat.Failure {
@@ -63,6 +67,10 @@ func runC14Block(c c14BlockCase, rec *stat.Rec) *stat.Failure {
 	var used blockComps
 	for i, h := range c.History {
 		hs := h.Build()
+		if i < len(c.HistRel) && c.HistRel[i] != "" {
+			hs = c01Step{Data: h, Rel: c.HistRel[i], RelN: c.HistRelN[i]}.relSrc(src)
+			rec.Class("block/history-source-derived-from-the-target")
+		}
 		hd := make([]byte, lz4.CompressBlockBound(len(hs)))
 		if i < len(c.HistDst) && c.HistDst[i] > 0 && c.HistDst[i] < len(hd) {
 			hd = hd[:c.HistDst[i]]
@@ -167,6 +175,18 @@ func drawC14Block(t *rapid.T) c14BlockCase {
 		c.HistDst = append(c.HistDst, hd)
 	}
 	c.Hammer = rapid.IntRange(0, 3).Draw(t, "hammer") == 0
+	if rapid.IntRange(0, 2).Draw(t, "related?") == 0 {
+		if rapid.Bool().Draw(t, "smalltarget") {
+			c.Target.Data = gen.DrawData(t, rapid.SampledFrom([]int{20, 40, 300, 5000}).Draw(t, "tmax"), "tsrc")
+			c.DstLen = 0
+		}
+		for i := range c.History {
+			c.History[i] = gen.DrawData(t, rapid.SampledFrom([]int{8, 40, 3000}).Draw(t, "hown"), "hsrc")
+			c.HistDst[i] = 0
+			c.HistRel = append(c.HistRel, rapid.SampledFrom([]string{"drop", "drop", "prepend", "head", "tail", "append"}).Draw(t, "hrel"))
+			c.HistRelN = append(c.HistRelN, rapid.SampledFrom([]int{1, 1, 2, 3, 5, 8, 15, 16, 17, 100, 65536}).Draw(t, "hreln"))
+		}
+	}
 	return c
 }
 
@@ -289,8 +309,8 @@ func init() {
 	register("C14", "C14/frame", runC14Frame)
 }
 
-const c14Rule = "blocks: the same (source, depth, destination length) is compressed by a fresh compressor object, by an object that first processed 1..3 unrelated inputs (up to 4 MiB, so every " +
-	"table slot is dirty), twice in a row, and through the pooled package function (three times, optionally while 8 goroutines hammer the same pools), into destinations with different prior " +
+const c14Rule = "blocks: the same (source, depth, destination length) is compressed by a fresh compressor object, by an object that first processed 1..3 other inputs (unrelated, up to 4 MiB, so every " +
+	"table slot is dirty; or, one case in three, derived from the target itself - its first k bytes dropped, k bytes in front, its head, its tail, extended - so that the object has seen the target's byte groups at other positions), twice in a row, and through the pooled package function (three times, optionally while 8 goroutines hammer the same pools), into destinations with different prior " +
 	"contents and spare capacity: all outputs (n, error-or-not, bytes) must be identical. Frames: the same stream and options written sequentially with one Write (base) and with concurrency " +
 	"{1,2,4,16} x Write partitions (no Flush) x drawn virtual-time schedules inside a synctest bubble, pooled buffers overwritten with a per-release pattern: byte-identical. The frame campaign is " +
 	"repeated with GOMAXPROCS 1. Non-trivial = the input compresses with >= 1 match and the runs differ in history / schedule / partition; distinct by hash(input, options, variants). " +
